@@ -362,14 +362,7 @@ def check_order(ctx: Context, rep, rule: str) -> None:
            message="the digest of the closed file is stored in the shard's "
            "file info")
     cs = ctx.fn(f"{FILLER}:_DatasetFillerContext.close_shard")
-    must_precede(ctx, rep, rule, cs,
-                 call_pred(ctx, cs, "shard.Shard.close"),
-                 call_pred(ctx, cs, method="append", recv="shard_files"),
-                 "close_shard: shard.close() -> shard_files.append")
-    must_precede(ctx, rep, rule, cs,
-                 call_pred(ctx, cs, method="append", recv="shard_files"),
-                 call_pred(ctx, cs, "ShardsList.write_config"),
-                 "close_shard: shard_files.append -> list write_config")
+    check_close_order(ctx, rep, rule)
     # what is appended is what close() returned
     closes = [c for c in cs.calls() if ctx.is_call(cs, c, "shard.Shard.close")]
     apps = [c for c in cs.calls() if isinstance(c.func, ast.Attribute) and
@@ -478,6 +471,20 @@ def check_closed(ctx: Context, rep, rule: str) -> None:
                "returns")
 
 
+def check_close_order(ctx: Context, rep, rule: str) -> None:
+    """A shard is listed only after its file is complete: close -> append ->
+    list write."""
+    cs = ctx.fn(f"{FILLER}:_DatasetFillerContext.close_shard")
+    must_precede(ctx, rep, rule, cs,
+                 call_pred(ctx, cs, "shard.Shard.close"),
+                 call_pred(ctx, cs, method="append", recv="shard_files"),
+                 "close_shard: shard.close() -> shard_files.append")
+    must_precede(ctx, rep, rule, cs,
+                 call_pred(ctx, cs, method="append", recv="shard_files"),
+                 call_pred(ctx, cs, "ShardsList.write_config"),
+                 "close_shard: shard_files.append -> list write_config")
+
+
 def run(ctx: Context, rep) -> None:
     rep.not_decided = (
         "durability across an operating system crash (no fsync; excluded by "
@@ -508,6 +515,30 @@ def run(ctx: Context, rep) -> None:
         ["sedpack.io.dataset_base:DatasetBase.shard_info_iterator",
          C_.SHARD_PATHS] + list(C_.INTERFACES),
         ["sedpack.io.utils:hash_checksums"], "hashes files")
+    # ... and no reader trusts the totals recorded in the description: during
+    # a continued session they lag behind the lists
+    rep.rule(
+        "C06.reader-counts",
+        "the recorded totals (number_of_shards / number_of_examples) are "
+        "read only by the writing and checking code, never by the iteration "
+        "module or the shard walk")
+    n_reads = 0
+    for mod_name in (C_.ITER_MOD, "sedpack.io.dataset_base"):
+        for fn_ in ctx.repo.module(mod_name).functions.values():
+            for n in fn_.body_nodes():
+                if isinstance(n, ast.Attribute) and n.attr in (
+                        "number_of_shards", "number_of_examples") and \
+                        isinstance(n.ctx, ast.Load):
+                    n_reads += 1
+                    rep.ob("C06.reader-counts", False, loc=fn_.loc(n),
+                           where=fn_.qualname, construct=short(n),
+                           message="a reader must enumerate the lists, not "
+                           "rely on recorded totals (stale while a writer is "
+                           "active or after it crashed)")
+    rep.ob("C06.reader-counts", n_reads == 0,
+           loc=ctx.fn(C_.SHARD_PATHS).loc(), where="iteration modules",
+           construct=f"{n_reads} read(s) of recorded totals",
+           message="readers are independent of the recorded totals")
 
 
 
